@@ -1,8 +1,11 @@
 package main
 
 import (
+	"bytes"
 	"fmt"
 	"go/ast"
+	"go/printer"
+	"go/token"
 	"strings"
 )
 
@@ -113,9 +116,103 @@ func c17Set(xs ...string) map[string]bool {
 	return m
 }
 
+// c17Src prints an expression in canonical gofmt form on one line.
+func c17Src(x ast.Node) string {
+	var b bytes.Buffer
+	_ = printer.Fprint(&b, token.NewFileSet(), x)
+	return strings.Join(strings.Fields(b.String()), " ")
+}
+
+// c17Returns: the result lists of all return statements of a function, in source order (function literals skipped).
+func c17Returns(fd *ast.FuncDecl) []string {
+	var out []string
+	ast.Inspect(fd.Body, func(x ast.Node) bool {
+		switch v := x.(type) {
+		case *ast.FuncLit:
+			return false
+		case *ast.ReturnStmt:
+			var parts []string
+			for _, r := range v.Results {
+				parts = append(parts, c17Src(r))
+			}
+			out = append(out, strings.Join(parts, ", "))
+		}
+		return true
+	})
+	return out
+}
+
+// c17CondGuarding: source text of the condition of the first if-statement of `fd` whose body calls `callee`.
+func c17CondGuarding(fd *ast.FuncDecl, callee string) string {
+	res := ""
+	ast.Inspect(fd.Body, func(x ast.Node) bool {
+		if res != "" {
+			return false
+		}
+		if v, ok := x.(*ast.IfStmt); ok {
+			calls := false
+			ast.Inspect(v.Body, func(y ast.Node) bool {
+				if c, ok := y.(*ast.CallExpr); ok && c17Callee(c.Fun) == callee {
+					calls = true
+				}
+				return !calls
+			})
+			if calls {
+				res = c17Src(v.Cond)
+				return false
+			}
+		}
+		return true
+	})
+	return res
+}
+
+// c17Calls: names of all calls in a function body, in source order.
+func c17Calls(fd *ast.FuncDecl) []string {
+	var out []string
+	ast.Inspect(fd.Body, func(x ast.Node) bool {
+		if c, ok := x.(*ast.CallExpr); ok {
+			if n := c17Callee(c.Fun); n != "" && !c17Logging[n] {
+				out = append(out, n)
+			}
+		}
+		return true
+	})
+	return out
+}
+
+// logging / naming helpers: not behaviour
+var c17Logging = c17Set("Infof", "Warningf", "Errorf", "V", "InfoS", "ErrorS", "Info", "Error", "KObj", "GetReservationNamespacedName", "Sprintf")
+
 func init() {
 	extractors["C17"] = func(e *ext) {
 		d := "pkg/descheduler/controllers/migration"
+		strList := func(lean string, xs []string) {
+			var parts []string
+			for _, x := range xs {
+				parts = append(parts, leanStr(x))
+			}
+			fmt.Fprintf(&e.out, "def %s : List String :=\n  [%s]\n\n", lean, strings.Join(parts, ",\n   "))
+		}
+		withFn := func(dir, recv, fn string, f func(fd *ast.FuncDecl)) {
+			fd := e.funcDecl(dir, recv, fn)
+			if fd == nil || fd.Body == nil {
+				e.fail("%s.%s not found", recv, fn)
+				f(&ast.FuncDecl{Body: &ast.BlockStmt{}})
+				return
+			}
+			f(fd)
+		}
+		// what the boolean helpers return on each of their exits: `true` = "aborted / stop", also on a failed lookup
+		withFn(d, "Reconciler", "abortJobIfReservationBoundByAnotherPod", func(fd *ast.FuncDecl) { strList("boundByOtherReturns", c17Returns(fd)) })
+		withFn(d, "Reconciler", "abortJobIfReserveOnSameNode", func(fd *ast.FuncDecl) { strList("sameNodeReturns", c17Returns(fd)) })
+		// the mode dispatch of doMigrate: the condition under which evictPodDirectly runs
+		withFn(d, "Reconciler", "doMigrate", func(fd *ast.FuncDecl) {
+			fmt.Fprintf(&e.out, "def directDispatchCond : String := %s\n\n", leanStr(c17CondGuarding(fd, "evictPodDirectly")))
+		})
+		// the lookup of the shipped interpreter: Client.Get, on NotFound one APIReader.Get
+		withFn(d+"/reservation", "interpreterImpl", "GetReservation", func(fd *ast.FuncDecl) { strList("getReservationCalls", c17Calls(fd)) })
+		withFn(d+"/reservation", "interpreterImpl", "DeleteReservation", func(fd *ast.FuncDecl) { strList("deleteReservationCalls", c17Calls(fd)) })
 		emit := func(lean, fn string, calls map[string]bool, stop string) {
 			t := &c17Tracer{calls: calls, roots: c17Set("job", "cond"), stop: stop}
 			fd := e.funcDecl(d, "Reconciler", fn)
